@@ -31,7 +31,7 @@ ANCHORS = ['manifest:ManifestFile.load', 'openpgp:SystemGPGEnvironment.verify_fi
            'openpgp:SystemGPGEnvironment._spawn_gpg']
 REQUIRED = ['manifest:ManifestFile.load', 'seq:accepted-signed', 'seq:rejected',
             'mock_verify_calls', 'gpg:accepted', 'gpg:rejected',
-            'gpg:rejected-on-reused-object', 'gpg:resign_cases', 'gpg:filejunk_cases',
+            'gpg:rejected-on-reused-object', 'gpg:resign_cases', 'gpg:filejunk_cases', 'gpg:fileinside_cases',
             'longline_cases', 'gpg:subsigned_cases']
 ASSUMPTIONS = ['(a) uses a mock OpenPGP environment: the framing logic is what is '
                'decided there; (b) is relative to the installed GnuPG',
@@ -101,6 +101,8 @@ def units(tier, seed):
         u.append({'k': 'resign', 'i': i})
     for i in range(32):
         u.append({'k': 'filejunk', 'i': i})
+    for i in range(12):
+        u.append({'k': 'filejunk', 'i': i, 'inside': True})
     for i in range(4 if tier == 'quick' else 16):
         u.append({'k': 'longline', 'i': i})
     u.append({'k': 'subsigned'})
@@ -368,7 +370,7 @@ def replay(case, ctx):
         c04gpg.run_resign({'i': case['i']}, ctx)
     elif case.get('kind') == 'filejunk':
         from vf.checks import c04gpg
-        c04gpg.run_filejunk({'i': case['i']}, ctx)
+        c04gpg.run_filejunk({'i': case['i'], 'inside': case.get('inside')}, ctx)
     elif case.get('kind') == 'subsigned':
         from vf.checks import c04gpg
         c04gpg.run_subsigned({}, ctx)
